@@ -8,7 +8,7 @@ MISMATCHES = "mismatches_C13"
 VIOLATIONS = "violations_C13"
 KNOWN = None
 SHARD = 40
-RULE = ("names of filecmp.DEFAULT_IGNORES on both sides with equal size and mtime but different content; file / directory clashes at the top level and nested, user files named like the state point / document in sub-directories, a caller-owned exclude list reused across two calls, deep syncs after an earlier deep comparison of the same paths followed by a same-size same-mtime change (filecmp cache not cleared by the harness); selection also as one-shot iterables (generator / iter / map / groupby group); seeded random pairs of real projects over the universe of the property text (0-4 jobs each, overlapping / disjoint "
+RULE = ("top-level user files whose names are proper substrings of the job's own file names (state, json, signac, point.json, document ...) x document strategy incl. DocSync.COPY; permission bits other than the umask default on counterpart / one-sided / nested files and in cloned jobs x preserve_permissions / preserve_times x collect_stats (bits observed before and after, next to the trees); names of filecmp.DEFAULT_IGNORES on both sides with equal size and mtime but different content; file / directory clashes at the top level and nested, user files named like the state point / document in sub-directories, a caller-owned exclude list reused across two calls, deep syncs after an earlier deep comparison of the same paths followed by a same-size same-mtime change (filecmp cache not cleared by the harness); selection also as one-shot iterables (generator / iter / map / groupby group); seeded random pairs of real projects over the universe of the property text (0-4 jobs each, overlapping / disjoint "
         "ids, files identical / differing / one-sided with explicit mtimes, nested and empty directories, file-vs-directory "
         "clashes, names from filecmp.DEFAULT_IGNORES and names that merely start like the state point / document file, job and "
         "project documents overlapping / nested / conflicting / mixed-type) x options (strategy None/always/never/update/custom, "
@@ -28,7 +28,7 @@ TRUSTED = [
     "source are compared there (the worker threads are joined before the snapshot: ThreadPool.terminate() does not)",
 ]
 ASSUMPTIONS = ["both workspaces are valid (directory name = id of the state point file)", "no symbolic links",
-               "file mtimes precede the call (set explicitly with os.utime); preserve_* / follow_symlinks at their defaults",
+               "file mtimes precede the call (set explicitly with os.utime); preserve_owner / preserve_group / follow_symlinks at their defaults; permission bits are set on user files only (owner read/write always set)",
                "document keys are distinct and contain no '.'"]
 
 
@@ -38,7 +38,7 @@ def gen_inputs(tier, rng):
     core, nested, backup = sync_gen.core_file_cases(), sync_gen.core_nested_cases(), sync_gen.core_backup_cases()
     if tier == "quick":
         core, nested, backup = rng.sample(core, 80), rng.sample(nested, 90), rng.sample(backup, 40)
-    return descs + core + nested + backup + _excl(tier, rng) + _round3(tier, rng) + _round4(tier, rng) + _round6(tier, rng) + sync_gen.core_reuse_cases()
+    return descs + core + nested + backup + _excl(tier, rng) + _round3(tier, rng) + _round4(tier, rng) + _round6(tier, rng) + _round7(tier, rng) + sync_gen.core_reuse_cases()
 
 def _round3(tier, rng):
     cases = sync_gen.core_selection_cases()
@@ -49,6 +49,13 @@ def _round3(tier, rng):
 def _round4(tier, rng):
     cases = sync_gen.core_clash_cases() + sync_gen.core_reuse_exclude_cases()
     return cases if tier != "quick" else rng.sample(cases, 130)
+
+
+def _round7(tier, rng):
+    own, perm = sync_gen.core_ownname_cases((False,)), sync_gen.core_perm_cases((False,))
+    if tier == "quick":
+        own, perm = rng.sample(own, 60), rng.sample(perm, 40)
+    return own + perm
 
 
 def _round6(tier, rng):
